@@ -152,15 +152,15 @@ def remove_noncands(
         # TODO: adjust so string and list of strings are acceptable inputes
         if not ballot.ranking:
             raise TypeError("Ballot must have ranking.")
-        to_remove = []
-        for item in non_cands:
-            to_remove.append({item})
+        to_remove = set(non_cands)
 
         ranking = ballot.ranking
         clean_ranking = []
         for cand in ranking:
-            if cand not in to_remove and cand not in clean_ranking:
-                clean_ranking.append(cand)
+            # a non-candidate may share a tied position with real candidates
+            kept = frozenset(cand) - to_remove
+            if kept and kept not in clean_ranking:
+                clean_ranking.append(kept)
 
         clean_ballot = Ballot(
             id=ballot.id,
